@@ -37,3 +37,64 @@ def replay(model, obligation):
                 fails.append('v%d split at %r: delivered %r errors %r' % (version, cut[:4], got, errs[:1]))
                 break
     return {'reproduced': bool(fails), 'detail': '; '.join(fails[:2]) or 'all chunkings deliver every frame exactly once'}
+
+
+def replay_dispatch(model, obligation):
+    """the real Connection.handle_pushed / process_msg: who is told about a decoded frame"""
+    import threading
+    import types
+    from cassandra.connection import Connection
+    fails = []
+
+    class C(Connection):
+        def __init__(self):
+            pass
+    if '/handle_pushed/' in obligation:
+        for raises in (False, True):
+            for et, want in (('STATUS_CHANGE', ['w1', 'w2']), ('SCHEMA_CHANGE', ['other']), ('TOPOLOGY_CHANGE', [])):
+                calls, args = [], object()
+
+                def w1(a):
+                    calls.append(('w1', a))
+                    if raises:
+                        raise Exception('boom')
+                c = C()
+                c._push_watchers = {'STATUS_CHANGE': [w1, lambda a: calls.append(('w2', a))], 'SCHEMA_CHANGE': [lambda a: calls.append(('other', a))]}
+                try:
+                    c.handle_pushed(types.SimpleNamespace(event_type=et, event_args=args))
+                except Exception as e:
+                    fails.append('%s event, first watcher raises=%s: handle_pushed raised %r' % (et, raises, e))
+                if [x[0] for x in calls] != want or any(x[1] is not args for x in calls):
+                    fails.append('%s event, first watcher raises=%s: watchers told %r (expected %r, each with the event arguments)' % (et, raises, [x[0] for x in calls], want))
+        return {'reproduced': bool(fails), 'detail': '; '.join(fails[:2]) or 'exactly the watchers of the event type are told'}
+    sid0 = model.get('stream_id', 3)
+    try:
+        sid0 = int(sid0)
+    except (TypeError, ValueError):
+        sid0 = 3
+    for sid in sorted({sid0, -1, 0, 3, 32767}):
+        log, decoded = [], object()
+        c = C()
+        c._continuous_paging_sessions, c.lock, c.orphaned_request_ids, c.in_flight = {}, threading.RLock(), set(), 2
+        c._on_orphaned_stream_released, c.request_ids, c.user_type_map, c.decompressor = None, [], {}, None
+        c.is_unsupported_proto_version, c.msg_received = False, False
+        other = 7 if sid != 7 else 8
+        dec = lambda *a, **k: decoded
+        c._requests = {other: (lambda r: log.append(('other', r)), dec, None)}
+        if sid >= 0:
+            c._requests[sid] = (lambda r: log.append(('cb', r)), dec, None)
+        c.handle_pushed = lambda r: log.append(('pushed', r))
+        c.defunct = lambda exc: log.append(('defunct', exc))
+        import cassandra.connection as cc
+        real = cc.ProtocolHandler.decode_message
+        cc.ProtocolHandler.decode_message = staticmethod(dec) if not isinstance(real, classmethod) else classmethod(lambda cls, *a, **k: decoded)
+        try:
+            c.process_msg(types.SimpleNamespace(stream=sid, version=4, flags=0, opcode=8, body_offset=9, end_pos=9), b'')
+        finally:
+            cc.ProtocolHandler.decode_message = real
+        want = [('pushed', decoded)] if sid < 0 else [('cb', decoded)]
+        ids = [] if sid < 0 else [sid]
+        if log != want or list(c.request_ids) != ids or c.msg_received is not True or len(c._requests) != 1:
+            fails.append('frame on stream %d: told %r (expected %r), ids released %r (expected %r), handlers left %d, msg_received %r'
+                         % (sid, [x[0] for x in log], [x[0] for x in want], list(c.request_ids), ids, len(c._requests), c.msg_received))
+    return {'reproduced': bool(fails), 'detail': '; '.join(fails[:2]) or 'each frame reaches its own handler once'}
